@@ -29,7 +29,7 @@ def genericChecks (cx : Ctx) (prev : RObs) (line : String) (r : RObs) : List Str
   let g1 := if st.big then [] else
     (if st.l = st.c * st.r ∧ (st.c = 0 ↔ st.r = 0) ∧ st.data.length = st.l then [] else ["G1:shape-invariant"])
   let g2 := if r.dbl = prev.dbl then [] else ["G2:double-drop"]
-  let g3 := if cx.elem = .cell ∧ r.live < (st.l : Int) then ["G3:dead-cell-reachable"] else []
+  let g3 := if (cx.elem = .cell ∨ cx.elem = .widecell) ∧ r.live < (st.l : Int) then ["G3:dead-cell-reachable"] else []
   let g4 :=
     if cx.elem.ledgered ∧ r.status = "ok" ∧ !hasFault ∧ !hasBang ∧ !leaks ∧ !prev.st.big ∧ !st.big then
       (if r.live - (st.l : Int) = prev.live - (prev.st.l : Int) then [] else ["G4:element-left-undropped-or-over-dropped"])
